@@ -298,8 +298,8 @@ def normalized_nodes_on_bdry(nodes_on_bdry, length):
                                  'expected (2,)'
                                  .format(i, shape_i))
     else:
-        raise ValueError('`nodes_on_bdry` has shape {}, expected ({},)'
-                         ''.format(shape, length))
+        raise ValueError('`nodes_on_bdry` has length {}, expected {}'
+                         ''.format(len(nodes_on_bdry), length))
 
     return out_list
 
